@@ -141,8 +141,9 @@ def via_get_datatype(dt):
     return get_datatype(json.loads(json.dumps(dt.export_datatype())))
 
 
-def make_cases(rng, tree, per_tree, big):
-    """[(mode, stream, cand, prev)] for one tree (Python values)"""
+def make_cases(rng, tree, per_tree, big, unmodelled=None):
+    """[(mode, stream, cand, prev)] for one tree (Python values); cases whose candidate cannot travel as JSON text are
+    appended to `unmodelled` as recipes (judged for totality only)"""
     cases = []
     nvalid = max(3, per_tree * 4 // 10)
     nsubst = max(4, per_tree * 45 // 100)
@@ -205,6 +206,15 @@ def make_cases(rng, tree, per_tree, big):
         for c in rng.sample(vs, min(len(vs), max(2, per_tree // 10))):
             cases.append((mode, 'shape', c, gen.gen_previous(rng, tree)))
             ns += 1
+    # candidates of unusual size (many members / elements / characters / digits, deep nesting) at every kind of position:
+    # the refusal path (error texts, re-raising wrappers) sees every candidate
+    for mode, base in (valids[:2] if len(valids) > 1 else valids):
+        for path, recipe in gen.size_candidates(rng, base, mode == 'wire', max(3, per_tree // 10), big):
+            if gen.recipe_travels(recipe):
+                cases.append((mode, 'size', gen.subst(base, path, gen.build_big(recipe)), gen.gen_previous(rng, tree)))
+            elif unmodelled is not None and dtcodec.encodable(base):
+                unmodelled.append({'tree': tree, 'mode': 'size', 'base': dtcodec.py_to_json(base), 'path': list(path),
+                                   'recipe': recipe, 'prev': None})
     return cases
 
 
@@ -220,6 +230,39 @@ def surrogate_cases(rng, tree, n):
         p = rng.choice(pos)
         out.append(gen.subst(w, p, rng.choice(['\ud800', 'a\udfffb', '\udc00\ud800'])))
     return out
+
+
+def shortened(v, n=300):
+    """repr for reports, cut in the middle; a value whose repr fails is named by its type"""
+    try:
+        r = repr(v)
+    except Exception as e:
+        return f'<{type(v).__name__}: repr raises {type(e).__name__}>'
+    return r if len(r) <= n else f'{r[:n // 2]} ...({len(r)} chars)... {r[-n // 4:]}'
+
+
+def show_dt(tree):
+    """repr of the real datatype (ScaledInteger.__repr__ fails for limits whose grid index overflows: the tree then)"""
+    try:
+        return repr(dtcodec.tree_to_dt(tree))
+    except Exception:
+        return json.dumps(tree)
+
+
+def eval_size_case(sc):
+    """a candidate given by a recipe (too big to travel as text): outcome classes of import_value (+ validate), validate
+    and __call__ on the real datatype object"""
+    dt = dtcodec.tree_to_dt(sc['tree'])
+    base = dtcodec.json_to_py(sc['base'])
+    cand = gen.subst(base, tuple(sc['path']), gen.build_big(sc['recipe']))
+    outs = []
+    imp = _outcome(lambda: dt.import_value(cand))
+    outs.append(imp)
+    if imp[0] == 'ok':
+        outs.append(_outcome(lambda: dt.validate(imp[1])))
+    outs.append(_outcome(lambda: dt.validate(cand)))
+    outs.append(_outcome(lambda: dt(cand)))
+    return ['bad' if k == 'bad' else {'other': x} if k == 'other' else {'ok': None} for k, x in outs]
 
 
 def collect_numbers(j, fl, it):
@@ -564,7 +607,7 @@ def signature(clause, case, impl):
 
 
 def describe(case, impl):
-    dt = dtcodec.tree_to_dt(case['tree'])
+    dt = show_dt(case['tree'])
     cand = dtcodec.json_to_py(case['cand'])
     prev = dtcodec.json_to_py(case['prev']) if case['prev'] is not None else None
 
@@ -573,7 +616,7 @@ def describe(case, impl):
             return repr(dtcodec.json_to_py(o['ok']))
         return json.dumps(o)
     what = ', '.join(f'{k}={show(v)}' for k, v in impl.items() if v is not None)
-    return f'{dt!r} {case["mode"]} candidate={cand!r} previous={prev!r}: {what}'
+    return f'{dt} {case["mode"]} candidate={shortened(cand)} previous={shortened(prev)}: {what}'
 
 
 # ---------------------------------------------------------------------------------------------
@@ -596,15 +639,19 @@ def run(ctx):
     ntrees = max(20, total // per_tree)
 
     cases = []
+    surrogates = []
+    oddprev = []
+    sizecases = []      # candidates that cannot travel as JSON text (recipes)
     for c in load_corpus(ctx):
-        cases.append((c, 'corpus'))
+        if c.get('mode') == 'size':
+            sizecases.append(c)
+        else:
+            cases.append((c, 'corpus'))
     trees = gen.all_kind_trees(rng, maxdepth) + gen.length_limited_trees(rng, max(16, ntrees // 12)) + \
         gen.extreme_scaled_trees(rng, max(6, ntrees // 30))
     while len(trees) < ntrees:
         d = rng.choice([1, 2, 2, 3, 3, 3] + ([4, 5] if big else []))
         trees.append(gen.gen_tree(rng, min(d, maxdepth)))
-    surrogates = []
-    oddprev = []
     for tree0 in trees:
         try:
             dt, tree = build_dt(tree0)
@@ -623,7 +670,7 @@ def run(ctx):
         for k in set(dtcodec.tree_kinds(tree)):
             res.count('tree.contains=' + k)
         real = via_get_datatype(dt) if via else dt
-        for mode, stream, cand, prev in make_cases(rng, tree, per_tree, big):
+        for mode, stream, cand, prev in make_cases(rng, tree, per_tree, big, sizecases):
             if mode == 'wire' and not dtcodec.is_json_value(cand):
                 mode = 'py'
             if prev is not None and rng.random() < 0.35:
@@ -760,6 +807,24 @@ def run(ctx):
             res.violations.append({'sig': 'C01:total:unmodelled-input:' + tree['t'] + ':' + classes,
                                    'what': f'{dtcodec.tree_to_dt(tree)!r} candidate={cand!r}: {enc}',
                                    'case': {'tree': tree, 'mode': 'surrogate', 'cand': json.dumps(cand), 'prev': None}})
+    # ---------- candidates of a size the codec cannot carry (ints beyond the str digit limit, nesting beyond the
+    # recursion limit): totality only ----------
+    reqs, meta = [], []
+    for sc in sizecases:
+        enc = eval_size_case(sc)
+        reqs.append({'p': 'C01', 'k': 'total', 'outs': enc})
+        meta.append((sc, enc))
+    for (sc, enc), ans in zip(meta, ctx.driver.batch(reqs)):
+        res.evaluations += 1
+        res.traces += 1
+        res.count('stream=size(totality only)')
+        res.count('size.unmodelled=' + sc['recipe'][0])
+        if ans.get('judge'):
+            classes = '+'.join(sorted({o['other'] for o in enc if isinstance(o, dict) and 'other' in o}))
+            res.violations.append({'sig': 'C01:total:unmodelled-input:' + sc['tree']['t'] + ':' + classes,
+                                   'what': f'{show_dt(sc["tree"])} candidate of unusual size {sc["recipe"]!r} at '
+                                           f'position {sc["path"]!r} of {dtcodec.json_to_py(sc["base"])!r}: {enc}',
+                                   'case': sc})
     # ---------- previous values of the wrong kind / length (outside the model: totality only) ----------
     reqs, meta = [], []
     for tree, cand, prev in oddprev:
@@ -811,6 +876,14 @@ def replay(ctx, rp):
         print('candidate:', repr(cand))
         print('impl     :', outs)
         return 1 if any(k == 'other' for k, _ in outs) else 0
+    if case['mode'] == 'size':
+        enc = eval_size_case(case)
+        ans = ctx.driver.batch([{'p': 'C01', 'k': 'total', 'outs': enc}])[0]
+        print('datatype :', show_dt(case['tree']))
+        print('candidate:', 'the value of recipe', case['recipe'], 'at position', case['path'], 'of', repr(dtcodec.json_to_py(case['base'])))
+        print('impl     :', enc, '(import_value [+ validate], validate, __call__)')
+        print('judge    :', ans.get('judge'))
+        return 1 if ans.get('judge') else 0
     if case['mode'] == 'history':
         cn = ChangeNode(dtcodec.tree_to_dt(case['tree']))
         cn.hold(dtcodec.json_to_py(case['held0']))
